@@ -266,7 +266,7 @@ def _lowering_is_nontrivial_for(model, c):
 
 @rule(
     "R11b",
-    ["C11", "C14"],
+    ["C11", "C14", "C01"],
     """PARTITION-DEPENDENT BLOCKWISE: a Blockwise class is not partitionwise if (a) its _task / _blockwise_arg uses the
     partition number other than to form the dependency keys (operand name, index), (b) it has a hand-written _layer,
     or (c) it is rewritten by its own _lower into other expressions (overlap operations read neighbouring
@@ -436,3 +436,91 @@ def r11d(ctx):
             ctx.ok(cid, c.module.loc(fn), "restricts lengths to the selected partitions")
         else:
             ctx.bad(cid, c.module.loc(fn), "returns lengths without consulting self._partitions / self._filtered: len() / lengths of a partition selection report other partitions' row counts")
+
+
+@rule(
+    "R11e",
+    ["C11", "C09", "C06", "C01"],
+    """POSITIONS ARE NOT PARTITION NUMBERS: (a) in a PartitionsFiltered class (outside _filtered_task, whose argument is already
+    an absolute number) a loop / comprehension over range(self.npartitions) - the POSITIONS of the selected partitions -
+    may subscript per-partition sequences only through self._partitions[i]; (b) FusedIO's buckets hold absolute
+    partition numbers of the wrapped source, so in FusedIO they may index only the source's UNFILTERED divisions
+    (<source>._divisions()), never its filtered view <source>.divisions. A positive example under sa/examples must
+    be flagged on every run.""",
+)
+def r11e(ctx):
+    import os
+
+    model = ctx.model
+    pf = _pf(model)
+
+    def scan(cls_name, fn, cid_prefix, loc):
+        """-> list of (node, description)"""
+        out = []
+        for node in ast.walk(fn):
+            gens = []
+            if isinstance(node, ast.For):
+                gens.append((node.target, node.iter, node.body))
+            elif isinstance(node, (ast.ListComp, ast.SetComp, ast.GeneratorExp, ast.DictComp)):
+                for g in node.generators:
+                    gens.append((g.target, g.iter, [node.key, node.value] if isinstance(node, ast.DictComp) else [node.elt]))
+            for target, it, body in gens:
+                if not (isinstance(it, ast.Call) and dotted(it.func) == "range" and len(it.args) == 1 and ast.unparse(it.args[0]) == "self.npartitions" and isinstance(target, ast.Name)):
+                    continue
+                v = target.id
+                for b in body:
+                    for sub in ast.walk(b):
+                        if isinstance(sub, ast.Subscript) and any(isinstance(x, ast.Name) and x.id == v for x in ast.walk(sub.slice)):
+                            if is_self_attr(sub.value, "_partitions"):
+                                continue
+                            # the position may appear in the index only as self._partitions[<pos>]
+                            mapped = set()
+                            for inner in ast.walk(sub.slice):
+                                if isinstance(inner, ast.Subscript) and is_self_attr(inner.value, "_partitions"):
+                                    mapped |= {id(x) for x in ast.walk(inner.slice)}
+                            if all(id(x) in mapped for x in ast.walk(sub.slice) if isinstance(x, ast.Name) and x.id == v):
+                                continue
+                            # (name, i) keys are tuples, not subscripts; a subscript by position is the error
+                            out.append((sub, f"`{ast.unparse(sub)}` indexes a per-partition sequence by the position `{v}` in range(self.npartitions)"))
+        return out
+
+    n = 0
+    for c in model.subclasses(pf, strict=True):
+        for m in model.functions_of(c):
+            if m.name in ("_filtered_task",):
+                continue
+            n += 1
+            hits = scan(c.name, m.node, qual(c, m.node), c.module.loc(m.node))
+            cid = f"{qual(c, m.node)}:positions"
+            if hits:
+                node, what = hits[0]
+                ctx.bad(cid, c.module.loc(node), what + ": with a partition selection the i-th selected partition is number self._partitions[i], not i, so every selection that is not a leading block reads another partition's entry")
+            else:
+                ctx.ok(cid, c.module.loc(m.node))
+    ctx.floor("methods of partition-filtered classes", n, 60)
+    # positive example
+    ex = os.path.join(os.path.dirname(os.path.dirname(__file__)), "examples", "r11e_positive.py")
+    tree = ast.parse(open(ex).read())
+    cls = next(x for x in tree.body if isinstance(x, ast.ClassDef))
+    flagged = {f.name for f in cls.body if isinstance(f, ast.FunctionDef) and scan(cls.name, f, "", "")}
+    if flagged != {"dependencies"}:
+        raise AnalysisError(f"R11e self-check failed: positive example flagged {sorted(flagged)}, expected ['dependencies']")
+    ctx.ok("examples/r11e_positive.py", "sa/examples/r11e_positive.py", "positive example flagged, its corrected twin is not")
+    # (b) FusedIO
+    fio = model.cls("FusedIO")
+    for mname in ("_divisions",):
+        fn = model.method(fio, mname, own=True).node
+        defs = flow.Defs(fn)
+        for sub in (x for x in ast.walk(fn) if isinstance(x, ast.Subscript) and isinstance(x.ctx, ast.Load)):
+            idx_txt = ast.unparse(defs.expand(sub.slice, at=sub))
+            if "_fusion_buckets" not in idx_txt and not any(isinstance(x, ast.Name) and any("_fusion_buckets" in ast.unparse(d.value) for d in defs.reaching(x.id, x) if d.value is not None) for x in ast.walk(sub.slice)):
+                continue
+            base = defs.expand(sub.value, at=sub)
+            bt = ast.unparse(base)
+            if "_fusion_buckets" in bt:
+                continue
+            cid = f"io.io.FusedIO.{mname}:bucket-index:{ast.unparse(sub)[:40]}"
+            if bt.endswith("._divisions()"):
+                ctx.ok(cid, fio.module.loc(sub), "absolute partition numbers index the unfiltered divisions")
+            else:
+                ctx.bad(cid, fio.module.loc(sub), f"`{ast.unparse(sub)}`: the buckets hold ABSOLUTE partition numbers of the wrapped source, but `{bt}` is its filtered view (only the selected partitions): with a partition selection that is not a leading block the wrong division is read or the index runs off the end")
